@@ -447,7 +447,8 @@ def lossless_iter_rule(rep, prog, cfg):
         for sp in spans:
             if sp and sp[3] >= 0:
                 for e in raw["exps"][sp[3]]:
-                    if e.get("crate") == "tracing" and str(e.get("m", "")).startswith("Bang:") and e.get("ext"):
+                    if e.get("ext") and ((e.get("crate") == "tracing" and str(e.get("m", "")).startswith("Bang:"))
+                                         or str(e.get("m", "")) in ("Bang:debug_assert", "Bang:debug_assert_eq", "Bang:debug_assert_ne", "Bang:log")):
                         ranges.add((e["cs"][0],) + tuple(e["ext"]))
         if not ranges:
             continue
